@@ -489,6 +489,51 @@ def part_names(ctx, scratch, quick):
     common.rm_tree(root)
 
 
+def part_links(ctx, scratch, quick):
+    """location columns of symbolic links: the entry's own location, not the target's"""
+    import importlib
+    c18 = importlib.import_module("props.C18")
+    for t in range(6 if quick else 150):
+        r = ctx.rng.fork()
+        ents, links = c18.link_tree(r)
+        top = os.path.join(scratch, "lk%d" % t)
+        os.makedirs(top)
+        fstree.materialise(top, ents)
+        c18.make_links(top, links, r)
+        snap = corr.Snap(scratch, None, root=top)
+        spelled, cwd = r.choice([(".", os.path.join(top, "root")), ("root", top), (os.path.join(top, "root"), top)])
+        cols = ["path", "name", "dir", "abspath", "absdir", "is_symlink"]
+        q = "select %s from %s %s into list" % (", ".join(cols), spelled, r.choice(["", "dfs"]))
+        ctx.case(("links", t, q))
+        case = {"argv": [q], "cwd": os.path.relpath(cwd, top), "links": ["%s -> %s" % (a, b) for a, b in links]}
+        m, impl = corr.run_case(ctx, snap, [q], fmt="list", ncols=len(cols), cwd=cwd, extra={"links": case["links"]})
+        rows = rows_of(impl["out"], len(cols)) if impl["status"] == 0 else None
+        if rows is None:
+            ctx.oracle_fail("location columns query failed", case, detail={"status": impl["status"], "err": impl["err"][:300].decode("utf-8", "replace")})
+            continue
+        nlinks = 0
+        for row in rows:
+            path = row[0].decode("utf-8", "surrogateescape")
+            full = path if os.path.isabs(path) else os.path.join(cwd, path)
+            islnk = os.path.islink(full)
+            nlinks += islnk
+            want = {"name": os.path.basename(path), "dir": os.path.dirname(path),
+                    "absdir": os.path.realpath(os.path.dirname(os.path.normpath(full))),
+                    "is_symlink": "true" if islnk else "false"}
+            if os.path.exists(full):
+                want["abspath"] = os.path.realpath(full)       # canonical: a link resolves to what it points at
+            got = {c: row[i].decode("utf-8", "surrogateescape") for i, c in enumerate(cols)}
+            bad = [c for c in want if got[c] != want[c]]
+            if bad:
+                ctx.oracle_fail("location column of an entry (symbolic links included) is not the entry's own location", dict(case, entry=path, columns=bad),
+                                detail={"got": {c: got[c] for c in bad}, "want": {c: want[c] for c in bad}})
+                break
+        ctx.count("link_rows", nlinks)
+        if nlinks:
+            ctx.distinct.add(("links", t, "nt"))
+        common.rm_tree(top)
+
+
 def run(ctx):
     quick = ctx.tier == "quick"
     part_h(ctx, quick)
@@ -497,6 +542,7 @@ def run(ctx):
         part_content(ctx, scratch, quick)
         part_owner_xattr(ctx, scratch, quick)
         part_names(ctx, scratch, quick)
+        part_links(ctx, scratch, quick)
         part_modes_disk(ctx, scratch, quick)
         part_zip_modes(ctx, scratch, quick)
     finally:
